@@ -1,5 +1,5 @@
 (* C12/Properties.v — property theorems only. Each is closed by a lemma of C12/Proofs.v. *)
-From Relic Require Import Base.Prelude Base.Enc Generated.C12_gen C12.Model C12.Proofs.
+From Relic Require Import Base.Prelude Base.Enc Generated.C12_gen C12.Model C12.Proofs C12.FsModel C12.FsProofs.
 From Coq Require Import Permutation.
 
 (* 1. write-then-rename on an ascending, disjoint, in-bounds patch list is the reference splice *)
@@ -63,3 +63,104 @@ Example pe_shape_in_domain :
 Proof. vm_compute. repeat split. Qed.
 Example coalesce_happens : add_all [mkCall 0 2 [1]; mkCall 2 3 [2; 3]] = [mkPatch 0 5 [1; 2; 3]].
 Proof. reflexivity. Qed.
+
+(* ------------------------------------------------------------------ which file Apply writes to (C12/FsModel.v)
+   hist ranges over ALL sequences of create-by-rename / overwrite / unlink / hard link / rename / mkdir / symlink /
+   open / seek performed before Apply; outpath over all strings ("" = the name the handle was opened under). *)
+
+(* 9. after Apply returns nil the file NAMED by the output path holds the splice of the bytes of the file the HANDLE
+      refers to — whichever strategy the stat results made Apply choose *)
+Theorem apply_after_history : forall hist ps outpath h s',
+  let s := run_history hist fs0 in
+  f_handle s = Some h ->
+  asc_disjoint 0 ps (zlen (data_of s (h_ino h))) = true ->
+  apply_fs ps outpath s = Ok s' ->
+  read_path s' (spec_outpath outpath (h_name h)) = Some (splice ps (data_of s (h_ino h))).
+Proof. exact C12.FsProofs.apply_after_history. Qed.
+
+(* 10. Apply writes through the handle only when the handle's inode is a regular file, is what the output path names
+       now, and has exactly one link *)
+Theorem inplace_only_when_safe : forall hist ps outpath h,
+  let s := run_history hist fs0 in
+  f_handle s = Some h -> chose_inplace ps outpath s = true ->
+  lookup s (spec_outpath outpath (h_name h)) = Some (h_ino h) /\ nlink_of (h_ino h) (f_names s) = 1 /\
+  kind_of s (h_ino h) = K_REG.
+Proof. exact C12.FsProofs.inplace_only_when_safe. Qed.
+Theorem inplace_matches_spec : forall hist ps outpath,
+  let s := run_history hist fs0 in
+  chose_inplace ps outpath s = true -> spec_inplace_allowed outpath s = true.
+Proof. exact C12.FsProofs.inplace_matches_spec. Qed.
+
+(* 11. no other name changes what it refers to or what a reader sees there (the reason for the one-link rule) *)
+Theorem other_names_untouched : forall hist ps outpath h s' q,
+  let s := run_history hist fs0 in
+  f_handle s = Some h -> apply_fs ps outpath s = Ok s' ->
+  canon q <> canon (spec_outpath outpath (h_name h)) ->
+  read_path s' q = read_path s q.
+Proof. exact C12.FsProofs.other_names_untouched. Qed.
+
+(* 12. the in-place strategy and the write-then-rename strategy produce identical results: same history, same patch
+       set, any two output paths *)
+Theorem strategies_agree : forall hist ps o1 o2 h s1 s2,
+  let s := run_history hist fs0 in
+  f_handle s = Some h ->
+  asc_disjoint 0 ps (zlen (data_of s (h_ino h))) = true ->
+  apply_fs ps o1 s = Ok s1 -> apply_fs ps o2 s = Ok s2 ->
+  read_path s1 (spec_outpath o1 (h_name h)) = read_path s2 (spec_outpath o2 (h_name h)).
+Proof. exact C12.FsProofs.strategies_agree. Qed.
+
+(* 13. a valid application is carried out: ranges inside the handle's file, the output path does not name a directory
+       => Apply returns nil (with 9: and the output path then holds the splice) — for read-only handles as well: the
+       in-place strategy is never chosen through a handle that cannot be written (fix: canWrite in Apply) *)
+Theorem apply_total : forall hist ps outpath h,
+  let s := run_history hist fs0 in
+  f_handle s = Some h ->
+  asc_disjoint 0 ps (zlen (data_of s (h_ino h))) = true ->
+  (forall j, lookup s (spec_outpath outpath (h_name h)) = Some j -> kind_of s j <> K_DIR) ->
+  exists s', apply_fs ps outpath s = Ok s'.
+Proof. exact C12.FsProofs.apply_total. Qed.
+Theorem inplace_needs_writable : forall s ps outpath h,
+  f_handle s = Some h -> chose_inplace ps outpath s = true -> h_rw h = true.
+Proof. exact C12.FsProofs.inplace_needs_writable. Qed.
+
+(* non-vacuity: P = "in", Q = "out", L = "ln"; an in-place eligible patch set (size-preserving + append at EOF) *)
+Definition xP : bytes := [105; 110].
+Definition xQ : bytes := [111; 117; 116].
+Definition xL : bytes := [108; 110].
+Definition xps : list patch := [mkPatch 1 2 [8; 9]; mkPatch 4 0 [5; 5]].
+Definition xd0 : bytes := [1; 2; 3; 4].
+Definition xd1 : bytes := [7; 7; 7; 7; 7].
+Definition after (hist : list op) (outpath : bytes) (p : bytes) : bool * option bytes :=
+  let s := run_history hist fs0 in
+  (chose_inplace xps outpath s, match apply_fs xps outpath s with Ok s' => read_path s' p | _ => None end).
+(* fresh open, same name: in place *)
+Example hist_fresh_inplace : after [OCreate xP xd0; OOpen xP] [] xP = (true, Some [1; 8; 9; 4; 5; 5]).
+Proof. vm_compute. reflexivity. Qed.
+(* the path was replaced by write-then-rename after the open (the handle's inode has 0 links): rewrite, and the
+   path gets the splice of the HANDLE's bytes, not of the replacement *)
+Example hist_replaced_rewrite :
+  after [OCreate xP xd0; OOpen xP; OCreate xP xd1] [] xP = (false, Some [1; 8; 9; 4; 5; 5]) /\
+  after [OCreate xP xd0; OOpen xP; OCreate xP xd1] xP xP = (false, Some [1; 8; 9; 4; 5; 5]).
+Proof. vm_compute. split; reflexivity. Qed.
+(* the file was renamed away and a new one created under the old name: the handle's inode still has ONE link *)
+Example hist_renamed_away_rewrite :
+  after [OCreate xP xd0; OOpen xP; ORename xP xQ; OCreate xP xd1] [] xP = (false, Some [1; 8; 9; 4; 5; 5]) /\
+  after [OCreate xP xd0; OOpen xP; ORename xP xQ; OCreate xP xd1] [] xQ = (false, Some xd0) /\
+  after [OCreate xP xd0; OOpen xP; ORename xP xQ; OCreate xP xd1] xQ xQ = (true, Some [1; 8; 9; 4; 5; 5]).
+Proof. vm_compute. repeat split; reflexivity. Qed.
+(* hard-linked: rewrite, the other name keeps the old bytes; unlinked: the name is created again *)
+Example hist_hardlink_rewrite :
+  after [OCreate xP xd0; OOpen xP; OLink xP xL] [] xP = (false, Some [1; 8; 9; 4; 5; 5]) /\
+  after [OCreate xP xd0; OOpen xP; OLink xP xL] [] xL = (false, Some xd0) /\
+  after [OCreate xP xd0; OOpen xP; OUnlink xP] [] xP = (false, Some [1; 8; 9; 4; 5; 5]).
+Proof. vm_compute. repeat split; reflexivity. Qed.
+(* a read-only handle on the single-link file at the output path (relic sign -f ./x -o x): write-then-rename *)
+Example hist_readonly_rewrite :
+  after [OCreate xP xd0; OOpenRO xP] [] xP = (false, Some [1; 8; 9; 4; 5; 5]) /\
+  after [OCreate xP xd0; OOpenRO xP] xP xP = (false, Some [1; 8; 9; 4; 5; 5]).
+Proof. vm_compute. split; reflexivity. Qed.
+(* a directory at the output path: the rename fails, Apply returns an error (the theorems' hypothesis Ok is not vacuous
+   only because this is the sole failing shape in the domain) *)
+Example hist_dir_dest_error :
+  apply_fs xps xQ (run_history [OCreate xP xd0; OOpen xP; OMkdir xQ] fs0) = Err E_RENAME.
+Proof. vm_compute. reflexivity. Qed.
